@@ -666,9 +666,14 @@ def graph_diff(a, b, exact=False, path="obj", out=None):
             d(ka + ":length", "length %d became %d" % (len(a), len(b)))
             return out
         if not exact and len(a) > 0 and all(_is_num(x) for x in a):
+            all_bool = all(isinstance(x, (bool, np.bool_)) for x in a)
             for i, (x, y) in enumerate(zip(a, b)):
                 if not _is_num(y) or _numval(x) != _numval(y):
                     d("numeric-seq:value", "element %d: %r became %r" % (i, x, y))
+                    break
+                if all_bool and not isinstance(y, (bool, np.bool_)):
+                    # no promotion happens in an all-bool sequence: the elements must stay booleans
+                    d("numeric-seq:bool-kind", "element %d of an all-bool %s: %r became %r (%s)" % (i, ka, x, y, type(y).__name__))
                     break
             return out
         for i, (x, y) in enumerate(zip(a, b)):
@@ -986,6 +991,21 @@ def _oracle_c14(case, obj, ld, tmp, res):
         for k, m in graph_diff(a1, a3, exact=True):
             res["diffs"].append(("skip:recorded:" + k, m))
         res["save_eq_load_done"] = True
+        # recorded lists ALONE: a store that still holds every attribute, with skip lists written into its
+        # root metadata afterwards, must load (without skip argument) like an explicit load-time skip
+        import zarr
+        from zarr.storage import LocalStore
+        rec_types = [np.ndarray] if int(hashlib.sha1(case["id"].encode()).hexdigest(), 16) % 2 else []
+        pr = real_save(obj, tmp, dict(cfg, store="dir", mode="w", as_path=False), tag="recorded")
+        root = zarr.open_group(store=LocalStore(str(pr)), mode="r+")
+        root.attrs["_autoserialize_skip_names"] = list(names)
+        root.attrs["_autoserialize_skip_types"] = ["%s.%s" % (t.__module__, t.__qualname__) for t in rec_types]
+        a4 = real_load(pr)
+        a5 = real_load(pb, skip=list(names) + rec_types)
+        for k, m in graph_diff(a5, a4, exact=True) + graph_diff(a4, a5, exact=True):
+            res["diffs"].append(("skip:recorded-only:" + k, "lists %s+%s recorded in the file vs given to load(): %s" % (
+                names, [t.__name__ for t in rec_types], m)))
+        res["recorded_only_done"] = True
     if case.get("container_objects"):
         # objects inside containers: pruned at save time, not at load time (outside the quantifier
         # of C14; recorded, never a violation)
